@@ -24,9 +24,10 @@ RULE = (
     "delivery: the value last delivered by the inner optimization), byte-equal without transforms, 1e-12 with; gradient "
     "entries of fixed variables == 0.0; vectors given to / returned by the algorithm have length = number of free "
     "variables. Trivial: the all-free mask (nothing is fixed)."
+    " Beyond V=3: single large instances with 300 variables (three fixed-index patterns incl. fixed j with free 256+j) x {norm, uniform, sobol, lhs} x shared on/off through EnsembleEvaluator.calculate, two calls: every vector handed to the evaluator, the reported perturbed variables and gradients judged with the same == tests."
 )
 ASSUMPTIONS = ["initial values inside the bounds; quadratic ensemble; nested inner optimization is a scripted 2-request run"]
-BOUNDS = {"quick": "all 7 masks + none, sequences <=3, 4 sampler settings, scaler on/off; nested sequences <=3", "thorough": "sequences <=4"}
+BOUNDS = {"quick": "all 7 masks + none, sequences <=3, 4 sampler settings, scaler on/off; nested sequences <=3", "thorough": "sequences <=4; both tiers + 24 single 300-variable instances"}
 
 V = 3
 X0 = np.array([0.5, -1.0, 2.0])
@@ -354,6 +355,58 @@ def judge_nested(case: dict[str, Any]) -> Judgement:
     return j
 
 
+WIDE_V = 300
+WIDE_METHODS = ["norm", "uniform", "sobol", "lhs"]
+
+
+def judge_wide(case: dict[str, Any]) -> Judgement:
+    """Single large instances: 300 variables, fixed ones at low and high positions (with free ones 256 positions later),
+    a built-in sampler; every vector the evaluator receives and the reported gradient are judged."""
+    from ropt.config.enopt import EnOptConfig
+    from ropt.ensemble_evaluator import EnsembleEvaluator
+    from ropt.results import GradientResults
+
+    j = Judgement()
+    fixed = sorted(set(case["fixed"]))
+    mask = np.ones(WIDE_V, dtype=bool)
+    mask[fixed] = False
+    x0 = (np.arange(WIDE_V) % 7 - 3) * 0.25
+    config = EnOptConfig.model_validate({
+        "variables": {"initial_values": x0.tolist(), "mask": mask.tolist()},
+        "realizations": {"weights": [1.0, 1.0]},
+        "gradient": {"number_of_perturbations": 3, "perturbation_magnitudes": 0.25, "seed": 11},
+        "samplers": [{"method": case["method"], "shared": case["shared"]}],
+    })
+    manager, _ = make_manager()
+    seen: list[np.ndarray] = []
+
+    def fun(x: np.ndarray, r: int) -> list[float]:
+        seen.append(np.array(x, copy=True))
+        return [float(x @ (np.arange(WIDE_V) % 5 + 1.0)) + r]
+
+    ens = EnsembleEvaluator(config, None, TableEvaluator(fun, 1, 0), manager)
+    for call in range(2):
+        res = ens.calculate(x0, compute_functions=True, compute_gradients=True)
+        j.transitions += 1
+        gres = next(item for item in res if isinstance(item, GradientResults))
+        pert = np.asarray(gres.evaluations.perturbed_variables)
+        if np.any(pert[..., fixed] != x0[fixed]):
+            bad = sorted({int(i) for i in np.argwhere(pert[..., fixed] != x0[fixed])[:, -1]})
+            j.fail("wide:fixed-variable-perturbed", call=call, fixed_columns=[fixed[i] for i in bad][:8])
+        grads = gres.gradients
+        if grads is not None and np.any(np.asarray(grads.objectives)[..., fixed] != 0.0):
+            j.fail("wide:fixed-variable-gradient-nonzero", call=call)
+        if grads is not None and np.any(np.asarray(grads.weighted_objective)[..., fixed] != 0.0):
+            j.fail("wide:fixed-variable-weighted-gradient-nonzero", call=call)
+    moved = [k for k, x in enumerate(seen) if np.any(x[fixed] != x0[fixed])]
+    if moved:
+        j.fail("wide:evaluator-received-moved-fixed-variable", requests=moved[:8])
+    free_moved = np.any(np.array(seen)[:, ~np.isin(np.arange(WIDE_V), fixed)] != x0[~np.isin(np.arange(WIDE_V), fixed)])
+    j.trivial = not bool(free_moved)
+    j.outcome = f"wide/{case['method']}/shared={case['shared']}/nfixed={len(fixed)}"
+    return j
+
+
 def all_masks() -> list[Any]:
     out: list[Any] = [None]
     for bits in itertools.product((True, False), repeat=V):
@@ -376,11 +429,20 @@ def shards(tier: str, seed: int) -> list[dict[str, Any]]:
             continue
         for sampler in ("one", "design"):
             out.append({"kind": "nested", "mask": mask, "sampler": sampler, "tier": tier})
+    out.append({"kind": "wide", "mask": None, "tier": tier})
     return out
 
 
 def run_shard(shard: dict[str, Any]) -> core.ShardResult:
     rec = Recorder(shard)
+    if shard["kind"] == "wide":
+        patterns = [list(range(10)), [0, 1, 2, 128, 129, 255, 256, 299], list(range(40, 300, 2))]
+        for method in WIDE_METHODS:
+            for shared in (False, True):
+                for k, fixed in enumerate(patterns):
+                    case = {"kind": "wide", "method": method, "shared": shared, "fixed": fixed}
+                    rec.add(("w", method, shared, k), case, judge_wide(case))
+        return rec.finish()
     mask = shard["mask"]
     key_mask = None if mask is None else tuple(mask)
     if shard["kind"] == "scripted":
@@ -418,7 +480,7 @@ def run_case(case: dict[str, Any]) -> Judgement:
     case = dict(case)
     if "sequence" in case:
         case["sequence"] = [tuple(s) for s in case["sequence"]]
-    return {"scripted": judge_scripted, "real": judge_real, "nested": judge_nested}[case["kind"]](case)
+    return {"scripted": judge_scripted, "real": judge_real, "nested": judge_nested, "wide": judge_wide}[case["kind"]](case)
 
 
 if __name__ == "__main__":
